@@ -11,7 +11,7 @@ import lexgen
 
 ID = "C05"
 DESIGN_REF = "DESIGN.md section 5, C05 (+ Appendix B); design/C05.md, design/LEXER_MODEL.md"
-LEAN_TARGETS = ["PV.C05.Thm"]
+LEAN_TARGETS = ["PV.C05.Thm", "PV.C05.Tables"]
 DRIVER = "drv_c05"
 HARNESS = {"bin": "pvh_c05", "features": "default"}
 EXTRA_HARNESS = [lc.FULL_HARNESS]
@@ -26,6 +26,8 @@ THEOREMS = [
     "PV.C05.newline_only_at_depth0",
     "PV.C05.indents_balanced",
     "PV.C05.full_lexer_tiles",
+    "PV.C05.gaps_are_trivia",
+    "PV.C05.spelling_table_eq",
 ]
 TRUSTED = [
     "Lean 4.33.0 kernel; axioms limited to propext, Classical.choice, Quot.sound",
@@ -41,12 +43,37 @@ TRUSTED = [
     "tools/props/c05.py + tools/lexgen.py + tools/lexcommon.py (generators, independent Python oracle), "
     "harness/src/bin/pvh_c05.rs, lean/Drv/C05.lean",
 ]
-PARTIAL = []
-READY = False
+PARTIAL = [
+    "float / imaginary tokens: the theorem says the token's numeral is the literal's text with underscores removed "
+    "and the exponent marker lower-cased; that f64::from_str rounds this numeral correctly is trusted "
+    "(compared bit-for-bit with CPython float() on every run)",
+    "placement of INDENT/DEDENT 'only at the start of a logical line' (DESIGN: indent_dedent_at_line_start) is not a "
+    "Lean theorem; it is judged on the real token stream by the Python oracle (INDENT after NEWLINE or at the start, "
+    "covering the whole indentation of its line; DEDENT after NEWLINE/DEDENT, empty, at the start of its line or at EOF)",
+    "which line breaks may lie in a gap of the default lexer (only inside brackets or on blank lines) is stated through "
+    "the full lexer: gaps_are_trivia + full_lexer_tiles + PV.C10.full_lexer_filter + newline_only_at_depth0; the "
+    "blank-line condition for depth-0 NonLogicalNewline tokens is judged by the Python oracle, not proved",
+]
+READY = True
 TECHNIQUE = ("Lean 4 theorems over a hand-written character-level model of the lexer + exhaustive/random/real-program "
              "correspondence with the real crate in both lexer configurations + independent Python tiling oracle")
-LEVEL_TEXT = ""
-LEVEL_NOTE = ""
+LEVEL_TEXT = ("Machine-checked Lean 4 theorems about a character-level model of the hand-written lexer and the soft-keyword "
+              "pass, for every source text, start offset, mode, both lexer configurations and any Unicode tables with "
+              "XID_Start inside XID_Continue: the loop terminates with fuel length+1; token ranges are inside the input, on "
+              "character boundaries (byte offsets are prefix sums of UTF-8 sizes), ordered and disjoint; the text under every "
+              "token spells it (names, keywords and operators by CPython's tables, integers by value incl. radix prefixes "
+              "and underscores, float/imaginary numerals, strings with prefix, quotes and CR/CRLF-normalised body, comments, "
+              "line breaks, INDENT/DEDENT); NEWLINE only at bracket depth 0; INDENT/DEDENT balance never negative and zero at "
+              "the end; with full-lexer the tokens tile the source with only blanks/form feeds/backslash-newline joins in "
+              "between; in the default configuration the gaps are accepted by a gap scanner (blanks, joins, comments to end "
+              "of line, line breaks). The model is tied to the Rust code on every run by differential correspondence in both "
+              "builds (exhaustive texts of length <= 3/4 over 26 symbols, generated programs in every layout, token soup, "
+              "random edits, whole CPython stdlib files), a behaviourally re-extracted spelling table proved equal to the "
+              "reference, and the real token stream is judged by an independent Python tiling oracle.")
+LEVEL_NOTE = ("Trusted: Lean kernel (axioms propext/Classical.choice/Quot.sound only); fidelity of the hand-written model "
+              "PV/Lexer/{Tok,Model,SoftKw}.lean as sampled by the correspondence streams; unic XID / emoji tables as model "
+              "parameters (sanity hypothesis checked on all scalar values each run); f64::from_str, BigInt parsing and "
+              "itertools::MultiPeek by contract; generators, oracle, harness, driver.")
 RULE = ("request lines (configuration x mode x start offset x source text) sent to both the real lexer and the Lean "
         "model; distinct = distinct request line; non-trivial = the source text is non-empty")
 
@@ -341,6 +368,81 @@ def canon(req, out):
 # ---------------------------------------------------------------------------------------------
 # pre_build: Unicode parameter sanity (hypothesis UParams.Sane of the theorems) on the real lexer
 
+_OP_NAMES = ["Lpar", "Rpar", "Lsqb", "Rsqb", "Colon", "Comma", "Semi", "Plus", "Minus", "Star", "Slash", "Vbar", "Amper",
+             "Less", "Greater", "Equal", "Dot", "Percent", "Lbrace", "Rbrace", "EqEqual", "NotEqual", "LessEqual",
+             "GreaterEqual", "Tilde", "CircumFlex", "LeftShift", "RightShift", "DoubleStar", "DoubleStarEqual",
+             "PlusEqual", "MinusEqual", "StarEqual", "SlashEqual", "PercentEqual", "AmperEqual", "VbarEqual",
+             "CircumflexEqual", "LeftShiftEqual", "RightShiftEqual", "DoubleSlash", "DoubleSlashEqual",
+             "ColonEqual", "At", "AtEqual", "Rarrow", "Ellipsis"]
+_KW_NAMES = ["False", "None", "True", "And", "As", "Assert", "Async", "Await", "Break", "Class", "Continue", "Def", "Del",
+             "Elif", "Else", "Except", "Finally", "For", "From", "Global", "If", "Import", "In", "Is", "Lambda",
+             "Nonlocal", "Not", "Or", "Pass", "Raise", "Return", "Try", "While", "Match", "Type", "Case", "With", "Yield"]
+_GEN_PATH = os.path.join(core.LEAN, "PV", "Gen", "C05Tables.lean")
+
+
+def _spelling_table(ctx):
+    """Behavioural extraction: lex every candidate lexeme with the REAL lexer and record which token
+    it becomes.  Written to lean/PV/Gen/C05Tables.lean; PV/C05/Tables.lean proves (decide) that the
+    table equals the reference spelling (Spec.opText / Spec.kwText) and is complete."""
+    rc, out, hbin = core.cargo_build("pvh_c05", "default")
+    if rc != 0:
+        return [("spelling-table extraction", False, "cargo build failed")]
+    # (lexeme, text to lex, index of the token to look at, its byte offset)
+    cands = []
+    closers = {")": "()", "]": "[]", "}": "{}"}
+    openers = {"(": "()", "[": "[]", "{": "{}"}
+    for sp in sorted(pytoken.EXACT_TOKEN_TYPES):
+        if sp in closers:
+            cands.append((sp, closers[sp], 1, 1))
+        elif sp in openers:
+            cands.append((sp, openers[sp], 0, 0))
+        else:
+            cands.append((sp, sp, 0, 0))
+    for kw in list(keyword.kwlist):
+        cands.append((kw, kw, 0, 0))
+    cands += [("match", "match x: pass", 0, 0), ("case", "case x: pass", 0, 0), ("type", "type X = int", 0, 0)]
+    # a few non-lexemes, to see that they do NOT become one operator / keyword token
+    cands += [(x, x, 0, 0) for x in ("<>", "=>", "=<", "&&", "||", "++", "--", "!", "?", "$", "print", "exec",
+                                     "nonlocals", "none", "NONE")]
+    reqs = [lc.lexreq(c[1], full=False) for c in cands]
+    outs = core.run_lines([hbin], reqs)
+    ops, kws = {}, {}
+    for (lexeme, ctx_text, idx, off), o in zip(cands, outs):
+        toks, end = lc.parse_stream(o)
+        if len(toks) <= idx:
+            continue
+        kind, payload, s, e = toks[idx]
+        if (s, e) != (off, off + len(lexeme.encode())):
+            continue
+        if ctx_text == lexeme and [t[0] for t in toks[1:]] != ["Newline"]:
+            continue
+        if kind in _OP_NAMES:
+            ops.setdefault(kind, []).append(lexeme)
+        elif kind in _KW_NAMES:
+            kws.setdefault(kind, []).append(lexeme)
+
+    def codes(t):
+        return "[" + ", ".join(str(ord(c)) for c in t) + "]"
+    lines = ["import PV.Lexer.Tok",
+             "/-! GENERATED by tools/props/c05.py (pre_build) from the behaviour of the real lexer: which single",
+             "    operator / keyword token each candidate lexeme becomes.  Do not edit. -/",
+             "namespace PV.Gen.C05", "open PV.Lexer", "",
+             "def opTable : List (Op × List Nat) := ["]
+    lines.append(",\n".join(f"  (.{k}, {codes(t)})" for k in _OP_NAMES for t in ops.get(k, [])))
+    lines += ["]", "", "def kwTable : List (Kw × List Nat) := ["]
+    lines.append(",\n".join(f"  (.{'Type_' if k == 'Type' else k}, {codes(t)})" for k in _KW_NAMES for t in kws.get(k, [])))
+    lines += ["]", "", "end PV.Gen.C05", ""]
+    text = "\n".join(lines)
+    os.makedirs(os.path.dirname(_GEN_PATH), exist_ok=True)
+    old = open(_GEN_PATH, encoding="utf-8").read() if os.path.exists(_GEN_PATH) else None
+    if old != text:
+        with open(_GEN_PATH, "w", encoding="utf-8") as f:
+            f.write(text)
+    n = sum(len(v) for v in ops.values()) + sum(len(v) for v in kws.values())
+    return [("spelling-table extraction (lean/PV/Gen/C05Tables.lean)", True,
+             f"{n} (token, lexeme) rows from {len(cands)} candidate lexemes")]
+
+
 def pre_build(ctx):
     t = lc.cls_tables(refresh=True)
     res = []
@@ -349,6 +451,7 @@ def pre_build(ctx):
                 not bad, f"counterexamples {bad}" if bad else f"{len(t['start'])} start / {len(t['continue'])} continue / {len(t['emoji'])} emoji"))
     forb = [c for c in (10, 13) if c in t["continue"] or c in t["start"]]
     res.append(("unicode-params: CR and LF are not identifier characters", not forb, str(forb)))
+    res += _spelling_table(ctx)
     return res
 
 
@@ -425,11 +528,11 @@ def _real_programs(ctx):
              "test/test_unicode_identifiers.py", "test/test_patma.py", "test/test_type_aliases.py",
              "lib2to3/tests/data/py3_test_grammar.py", "test/test_eof.py", "test/test_fstring.py",
              "encodings/cp1252.py", "test/test_float.py", "test/test_long.py"]
-    limit = 60_000 if ctx.quick else 2_000_000
+    limit = 120_000 if ctx.quick else 2_000_000
     chosen = [os.path.join(root, f) for f in fixed if os.path.exists(os.path.join(root, f))]
     pool = [f for f in files if f not in chosen]
     rng.shuffle(pool)
-    want = 36 if ctx.quick else 420
+    want = 110 if ctx.quick else 420
     for f in pool:
         if len(chosen) >= want:
             break
@@ -495,7 +598,7 @@ def streams(ctx):
                       "(blank, tab, LF, CR, FF, #, backslash, quotes, brackets, a _ 0 1 . e j x = - > : ! e-acute BOM)")
 
     # 3. generated programs in every layout
-    n = 700 if ctx.quick else 30000
+    n = 3000 if ctx.quick else 30000
     rng = ctx.rng("programs")
     reqs = []
     for i in range(n):
@@ -508,7 +611,7 @@ def streams(ctx):
                       "deep indentation, comments, blank lines, every operator and keyword, number and string shapes)")
 
     # 4. token soup: lexemes glued without regard to grammar
-    n = 1500 if ctx.quick else 60000
+    n = 8000 if ctx.quick else 60000
     rng = ctx.rng("soup")
     reqs = []
     for i in range(n):
@@ -523,7 +626,7 @@ def streams(ctx):
                       "(CRLF / CR / BOM / re-tabbed)")
 
     # 6. malformed: random edits of generated programs
-    n = 1500 if ctx.quick else 60000
+    n = 8000 if ctx.quick else 60000
     rng = ctx.rng("malformed")
     reqs = []
     for i in range(n):
